@@ -116,9 +116,7 @@ def run_case(ctx, case, c):
     # the reader of the round-trip theorem (Model/Reader.read3, extracted) on the text the implementation wrote:
     # it must read what libqasm + the OpenSquirrel parser read (c2) and keep the comments of the circuit
     rd = case.get("_read")
-    # (comments spanning several lines are outside the reader theorem's hypotheses — stmt_ok asks no_nl — and stay with
-    # the oracle above)
-    if rd is not None and not any(type(s).__name__ == "Comment" and "\n" in s.str for s in c.ir.statements):
+    if rd is not None:
         rv = ser.canon(rd[1])
         if rv[0] != "some":
             ctx.disagree("reader", _pub(case), f"the verified reader refuses a text that libqasm accepts\n{text}")
